@@ -617,6 +617,9 @@ class Interp(object):
                 e2 = env if s2 is st else dict(env)
                 if isinstance(vv, TupleV) and len(vv.elems) == len(t.elts):
                     parts = vv.elems
+                elif isinstance(vv, Obj) and vv.oid in s2.seqs and len(s2.seqs[vv.oid]) == len(t.elts) and \
+                        not any(isinstance(x, Star) for x in s2.seqs[vv.oid]):
+                    parts = s2.seqs[vv.oid]         # a list of known length (for example a comprehension result)
                 elif isinstance(vv, (Opaque, SStr)):
                     parts = [Opaque('%s[%d]' % (vv.tag, i), vv.deps) for i in range(len(t.elts))]
                 else:
